@@ -414,7 +414,7 @@ func mkSub(a, b *Term) *Term {
 	if b.op == "int" {
 		return mkAdd(a, mkBig(new(big.Int).Neg(b.ival)))
 	}
-	if sameTerm(a, b) {
+	if sameTerm(a, b) || linEqual(a, b) {
 		return mkInt(0)
 	}
 	// (x + c) - x = c ; (len-style cancellations)
@@ -736,7 +736,7 @@ func appendConcat(out []*Term, y *Term) []*Term {
 	// adjacent slices of the same base: substr(b,o,l1) ++ substr(b,o+l1,l2) -> substr(b,o,l1+l2)
 	if n := len(out); n > 0 && y.op == "str.substr" && out[n-1].op == "str.substr" {
 		p := out[n-1]
-		if sameTerm(p.args[0], y.args[0]) && sameTerm(mkAdd(p.args[1], p.args[2]), y.args[1]) {
+		if sameTerm(p.args[0], y.args[0]) && linEqual(mkAdd(p.args[1], p.args[2]), y.args[1]) {
 			out[n-1] = mkSubstr(p.args[0], p.args[1], mkAdd(p.args[2], y.args[2]))
 			return out
 		}
@@ -762,7 +762,7 @@ func mkSubstr(s, off, n *Term) *Term {
 		}
 	}
 	if o, ok := off.intVal(); ok && o == 0 {
-		if sameTerm(n, mkLen(s)) {
+		if linEqual(n, mkLen(s)) {
 			return s
 		}
 	}
@@ -1137,4 +1137,75 @@ func mkSliceIn(s, lo, n *Term) *Term {
 	c.inrange = true
 	c.key = ""
 	return &c
+}
+
+// ---------- linear normal form (syntactic equality modulo arithmetic) ----------
+
+type linForm struct {
+	c     *big.Int
+	coeff map[string]*big.Int
+}
+
+func linearize(t *Term) *linForm {
+	lf := &linForm{c: new(big.Int), coeff: map[string]*big.Int{}}
+	var add func(t *Term, k *big.Int)
+	add = func(t *Term, k *big.Int) {
+		switch {
+		case t.op == "int":
+			lf.c.Add(lf.c, new(big.Int).Mul(k, t.ival))
+		case t.op == "+":
+			for _, a := range t.args {
+				add(a, k)
+			}
+		case t.op == "-" && len(t.args) == 1:
+			add(t.args[0], new(big.Int).Neg(k))
+		case t.op == "-" && len(t.args) >= 2:
+			add(t.args[0], k)
+			for _, a := range t.args[1:] {
+				add(a, new(big.Int).Neg(k))
+			}
+		case t.op == "*" && len(t.args) == 2 && t.args[1].op == "int":
+			add(t.args[0], new(big.Int).Mul(k, t.args[1].ival))
+		case t.op == "*" && len(t.args) == 2 && t.args[0].op == "int":
+			add(t.args[1], new(big.Int).Mul(k, t.args[0].ival))
+		case t.op == "str.len" && t.args[0].op == "str.++":
+			for _, a := range t.args[0].args {
+				add(mkLen(a), k)
+			}
+		default:
+			key := t.String()
+			if lf.coeff[key] == nil {
+				lf.coeff[key] = new(big.Int)
+			}
+			lf.coeff[key].Add(lf.coeff[key], k)
+		}
+	}
+	add(t, big.NewInt(1))
+	for k, v := range lf.coeff {
+		if v.Sign() == 0 {
+			delete(lf.coeff, k)
+		}
+	}
+	return lf
+}
+
+// linEqual: a and b are equal as linear expressions over their non-arithmetic atoms.
+func linEqual(a, b *Term) bool {
+	if a.sort != SInt || b.sort != SInt {
+		return sameTerm(a, b)
+	}
+	if sameTerm(a, b) {
+		return true
+	}
+	x, y := linearize(a), linearize(b)
+	if x.c.Cmp(y.c) != 0 || len(x.coeff) != len(y.coeff) {
+		return false
+	}
+	for k, v := range x.coeff {
+		w, ok := y.coeff[k]
+		if !ok || v.Cmp(w) != 0 {
+			return false
+		}
+	}
+	return true
 }
